@@ -14,8 +14,11 @@ from .mir import strip_generics, path_matches, is_log_call
 sys.setrecursionlimit(20000)
 
 
-class Undecided(Exception):
-    pass
+from .framework import Undecided as _RuleUndecided
+
+
+class Undecided(_RuleUndecided):
+    """Raised when the interpreter leaves its decidable fragment; the framework reports the rule as undecided (exit 2)."""
 
 
 class PathEnd(Exception):
